@@ -12,9 +12,11 @@
    operation that completed persists (process crash, no power-loss
    reordering).  A file write is two operations: OTruncate (the file exists
    and holds a strict prefix of the bytes, possibly nothing) and OComplete. *)
-From Coq Require Import ZArith List Bool String Arith.
+From Coq Require Import String.
+From Coq Require Import ZArith List Bool Arith.
 From TV Require Import gen.SaveIR.
 Import ListNotations.
+Open Scope list_scope.
 Open Scope Z_scope.
 
 (* ---- names and paths below the run directory (depth <= 2) ---------------- *)
@@ -142,8 +144,8 @@ Section FS.
       end
     | RmTree d =>
       match lookup (Top d) s with
-      | Some Dir => Some (remove_tree d s)
-      | _ => Some s                                       (* missing / not a directory / a link: error ignored *)
+      | Some (File _) | Some (Link _) => Some s           (* not a directory / a link: error ignored *)
+      | _ => Some (remove_tree d s)                       (* missing: nothing below it either *)
       end
     | OTruncate d f =>
       match write_target d f s with Some p => Some (set p (File Partial) s) | None => None end
@@ -184,10 +186,20 @@ Section FS.
   Definition crash (k : nat) (ops : list op) (s : fs) : fs := exec (firstn k ops) s.
 
   (* ---- the save program of gen/SaveIR.v over this file system ----------- *)
+  (* os.readlink(l) == os.path.basename(d), OSError (missing / not a link) -> False *)
+  Definition published (l d : name) (s : fs) : bool :=
+    match lookup (Top l) s with Some (Link t) => name_eqb t d | _ => false end.
   Fixpoint expand_stmt (n : Z) (data : comp -> B) (st : stmt) (s : fs) {struct st} : list op :=
     match st with
     | SIfNotIsDir p body =>
       if is_dir (pname n p) s then [] else
+      (fix go (l : list stmt) (s : fs) {struct l} : list op :=
+         match l with
+         | [] => []
+         | x :: r => let o := expand_stmt n data x s in (o ++ go r (exec o s))%list
+         end) body s
+    | SIfNotPublished l p body =>
+      if published (pname n l) (pname n p) s && is_dir (pname n p) s then [] else
       (fix go (l : list stmt) (s : fs) {struct l} : list op :=
          match l with
          | [] => []
@@ -224,12 +236,22 @@ Section FS.
   Definition save_ops := save_ops_with save_prog.
   Definition hist_ops := hist_ops_with save_prog.
 
-  (* the program before commit c2ddcaf (translation of the old saving.py by the same translator) *)
+  (* the program before the F9 fix (translation of the original saving.py by the same translator) *)
   Definition save_prog_prefix : list stmt :=
     [ SMkDirs PFinal; SMkDirs PFinal;
       SWrite PFinal "model.pt" CModel; SWrite PFinal "config.yaml" CConfig; SWrite PFinal "opt.pt" COpt;
       SWrite PFinal "replay_buffer.pt" CReplay; SWrite PFinal "elapsed.yaml" CElapsed;
       SUnlinkQuiet PLatest; SSymlinkBase PFinal PLatest ].
+
+  (* the first version of the fix (c2ddcaf, since amended): any existing step directory was kept,
+     also one that `latest` does not designate (leftover of an interrupted run) *)
+  Definition save_prog_c2ddcaf : list stmt :=
+    [ SIfNotIsDir PFinal
+        [ SRmTree PTmp; SMkDirs PTmp; SMkDirs PTmp;
+          SWrite PTmp "model.pt" CModel; SWrite PTmp "config.yaml" CConfig; SWrite PTmp "opt.pt" COpt;
+          SWrite PTmp "replay_buffer.pt" CReplay; SWrite PTmp "elapsed.yaml" CElapsed;
+          SRename PTmp PFinal ];
+      SUnlinkQuiet PLatestTmp; SSymlinkBase PFinal PLatestTmp; SReplace PLatestTmp PLatest ].
 
   (* ---- resume: load_or_init_model + load_state ---------------------------- *)
   Definition read_file (d : name) (f : string) (s : fs) : option B :=
@@ -240,20 +262,22 @@ Section FS.
 
   Variable step_of : B -> option Z.     (* yaml.unsafe_load(elapsed.yaml).step *)
 
+  (* load_state on the directory d: every file of the read set must load; the step is elapsed.step *)
+  Definition resume_from (d : name) (s : fs) : outcome :=
+    if forallb (fun r => is_some (read_file d (fst r) s)) load_reads then
+      match elapsed_file with
+      | Some f => match read_file d f s with
+                  | Some b => match step_of b with Some z => Resumed z | None => Broken end
+                  | None => Broken
+                  end
+      | None => Broken
+      end
+    else Broken.
   Definition resume (s : fs) : outcome :=
-    match resolve link_fuel (pname 0 resume_probe) s with     (* os.path.exists(run_dir/latest) *)
-    | None => Scratch
-    | Some (d, Dir) =>
-      if forallb (fun r => is_some (read_file d (fst r) s)) load_reads then
-        match elapsed_file with
-        | Some f => match read_file d f s with
-                    | Some b => match step_of b with Some z => Resumed z | None => Broken end
-                    | None => Broken
-                    end
-        | None => Broken
-        end
-      else Broken
-    | Some _ => Broken
+    match resolve link_fuel (pname 0 resume_probe) s with     (* os.path.exists(run_dir/latest) follows the link *)
+    | None => Scratch                                         (* missing or dangling: falls through to init_weights *)
+    | Some (d, Dir) => resume_from d s
+    | Some _ => Broken                                        (* latest -> a regular file: open(latest/model.pt) raises *)
     end.
 
   (* what load_state puts into the fresh TrainState: the bytes of every file of the read set *)
@@ -370,3 +394,99 @@ Section Mode.
     let '(dt, v) := cell p (live p) dflt in
     mkP (upd (live p) (d, cast d v) (cells p)) (live p) (master p).
 End Mode.
+
+(* ---- concrete contents used by the examples and by the correspondence ---------
+   a file's content is identified by (component, step, version): `version` names the training
+   state the saving run had at that step (two runs reach one step with different weights). *)
+Definition CB := (comp * Z * Z)%type.
+Definition cstep_of (b : CB) : option Z := let '(c, s, _) := b in if comp_eqb c CElapsed then Some s else None.
+Definition csave (s v : Z) : save CB := mkSave s (fun c => (c, s, v)).
+
+(* config.yaml does not depend on the training state: its content carries no (step, version) *)
+Definition cb_norm (b : CB) : CB := let '(c, s, v) := b in if comp_eqb c CConfig then (c, 0, 0) else b.
+Definition cb_eqb (a b : CB) : bool :=
+  let '(c1, s1, v1) := cb_norm a in let '(c2, s2, v2) := cb_norm b in comp_eqb c1 c2 && Z.eqb s1 s2 && Z.eqb v1 v2.
+Definition content_eqb (a b : content CB) : bool :=
+  match a, b with Partial, Partial => true | Complete x, Complete y => cb_eqb x y | _, _ => false end.
+Definition node_eqb (a b : node CB) : bool :=
+  match a, b with
+  | Dir, Dir => true
+  | File x, File y => content_eqb x y
+  | Link x, Link y => name_eqb x y
+  | _, _ => false
+  end.
+(* the observed directory listing and the model state hold the same entries (model keys are unique) *)
+Definition fs_matches (obs model : fs CB) : bool :=
+  Nat.eqb (List.length obs) (List.length model) &&
+  forallb (fun e => match lookup (fst e) model with Some v => node_eqb v (snd e) | None => false end) obs.
+
+Definition op_eqb (a b : op CB) : bool :=
+  match a, b with
+  | MkDirs x, MkDirs y | RmTree x, RmTree y => name_eqb x y
+  | OTruncate x f, OTruncate y g => name_eqb x y && String.eqb f g
+  | OComplete x f p, OComplete y g q => name_eqb x y && String.eqb f g && cb_eqb p q
+  | Rename a1 b1, Rename a2 b2 | Replace a1 b1, Replace a2 b2 | Symlink a1 b1, Symlink a2 b2 => name_eqb a1 a2 && name_eqb b1 b2
+  | (Unlink x | UnlinkQuiet x), (Unlink y | UnlinkQuiet y) => name_eqb x y     (* the wrapper sees one os.unlink call *)
+  | _, _ => false
+  end.
+Fixpoint ops_eqb (a b : list (op CB)) : bool :=
+  match a, b with
+  | [], [] => true
+  | x :: r, y :: t => op_eqb x y && ops_eqb r t
+  | _, _ => false
+  end.
+
+(* several processes on one run directory: each runs its history and dies after k operations
+   (k >= the number of operations: it finished) *)
+Definition crun := (list (Z * Z) * nat)%type.
+Definition hist_of (evs : list (Z * Z)) : history CB := map (fun e => csave (fst e) (snd e)) evs.
+Fixpoint run_all (rs : list crun) (s : fs CB) : fs CB :=
+  match rs with
+  | [] => s
+  | (evs, k) :: t => run_all t (crash k (hist_ops s (hist_of evs)) s)
+  end.
+Definition loaded_eqb (a b : option (list (comp * CB))) : bool :=
+  match a, b with
+  | None, None => true
+  | Some x, Some y =>
+    Nat.eqb (List.length x) (List.length y) &&
+    forallb (fun p => comp_eqb (fst (fst p)) (fst (snd p)) && cb_eqb (snd (fst p)) (snd (snd p))) (combine x y)
+  | _, _ => false
+  end.
+(* one crash case: the runs, what the real resume did, what it loaded, what the directory held *)
+Definition crash_case := (list crun * outcome * option (list (comp * CB)) * fs CB)%type.
+Definition crash_case_ok (c : crash_case) : bool :=
+  let '(rs, out, ld, obs) := c in
+  let s := run_all rs [] in
+  outcome_eqb (resume cstep_of s) out && loaded_eqb (loaded s) ld && fs_matches obs s.
+Definition crash_case_view (c : crash_case) :=
+  let '(rs, out, ld, obs) := c in
+  let s := run_all rs [] in (resume cstep_of s, loaded s, s).
+(* the operations the real save calls issued = the expansion of the generated program *)
+Definition trace_case_ok (c : list (Z * Z) * list (op CB)) : bool :=
+  let '(evs, tr) := c in ops_eqb (hist_ops [] (hist_of evs)) tr.
+
+(* mode switch on digests: T = Z, a conversion changes the digest in an arbitrary way *)
+Definition digest_cast (d : dtype) (v : Z) : Z := 2 * v + match d with F32 => 1 | F16 => 3 | BF16 => 5 | F64 => 7 end.
+Definition mode_case := (bool * dtype * dtype * list Z * list bool * list Z)%type.
+   (* on_cpu, serve, train, digest of every parameter before, observed aliasing per key, digests after *)
+Definition mode_case_ok (c : mode_case) : bool :=
+  let '(cpu, serve, train, before, alias, after) := c in
+  let dflt := (train, 0) in
+  let m := map (fun v => mkP [(train, v)] 0 None) before in
+  let served := serve_mode digest_cast cpu serve dflt m in
+  let back := train_mode digest_cast train dflt served in
+  (fix eqz (a b : list Z) := match a, b with [] , [] => true | x :: r, y :: t => Z.eqb x y && eqz r t | _, _ => false end)
+    (map snd (values dflt back)) after &&
+  (fix eqb' (a b : list bool) := match a, b with [] , [] => true | x :: r, y :: t => Bool.eqb x y && eqb' r t | _, _ => false end)
+    (map aliased served) alias.
+Definition window_case_ok (c : Z * list Z * list (list Z)) : bool :=
+  let '(cap, tags, bufs) := c in
+  (fix go (k : nat) (bufs : list (list Z)) :=
+     match bufs with
+     | [] => true
+     | b :: r => (fix eqz (a b : list Z) := match a, b with [] , [] => true | x :: r, y :: t => Z.eqb x y && eqz r t | _, _ => false end)
+                   (window_run cap [] (firstn k tags)) b && go (S k) r
+     end) 1%nat bufs.
+Definition zlist_eqb (a b : list Z) : bool :=
+  (fix eqz (a b : list Z) := match a, b with [] , [] => true | x :: r, y :: t => Z.eqb x y && eqz r t | _, _ => false end) a b.
